@@ -159,9 +159,21 @@ class C12(Prop):
                     order.append(["A", ia]); ia += 1
                 else:
                     order.append(["B", ib]); ib += 1
-            return {"A": A, "B": B, "nsA": nsA, "nsB": nsB, "order": order, "mem": "",
+            case = {"A": A, "B": B, "nsA": nsA, "nsB": nsB, "order": order, "mem": "",
                     "asset": rng.choice(ASSETS), "include_not_matched": rng.chance(2, 3),
                     "profile": rng.choice(["speed", "memory"]), "params": {}}
+            if rng.chance(1, 3):
+                # the file as ONE REGION of a fragmented scan (fast / legacy / single-pass); A reads values that are
+                # computed while the regions are scanned (`entrypoint`), B brings a string that forces the scan
+                case["A"] = [{"name": "a0", "decls": [], "cond": rng.choice(["entrypoint >= 0", "defined entrypoint",
+                                                                             "entrypoint > 4096 or filesize > 0"]),
+                              "private": False, "imports": []}]
+                case["B"] = [{"name": "b0", "decls": [plain_decl(rng.choice([b"ELF", b"PE", b"text", b"zzzz-not-there"]))],
+                              "cond": rng.choice(["any of them", "#s0 >= 0", "true"]), "private": False}]
+                case["order"] = rng.choice([[["A", 0], ["B", 0]], [["B", 0], ["A", 0]]])
+                case["frag"] = {"start": rng.choice([0, 4096, 1 << 32]), "mode": rng.choice(["fast", "fast", "legacy", "single_pass"])}
+                case["include_not_matched"] = rng.chance(1, 3)
+            return case
         A = gen_rules("a", rng.range(1, 2), [])
         if rng.chance(1, 3):
             # global rules in A: one that holds, then (half of the time) one that does not — the namespace of A
@@ -223,6 +235,11 @@ class C12(Prop):
         p["compute_full_matches"] = True
         p["include_not_matched"] = bool(case.get("include_not_matched", True))
         inp = {"file": os.path.join(core.REPO, case["asset"])} if case.get("asset") else {"mem": case["mem"]}
+        if case.get("frag"):
+            data = open(os.path.join(core.REPO, case["asset"]), "rb").read()
+            inp = {"regions": [{"start": case["frag"]["start"], "hex": data.hex(), "fail": False}]}
+            p["mode"] = case["frag"]["mode"]
+            p["compute_full_matches"] = False
         return {"rules": self.entries(case, which), "profile": case.get("profile", "speed"), "params": p,
                 "input": inp}
 
@@ -237,7 +254,7 @@ class C12(Prop):
             ctx.count("private_strings=%d" % sum(1 for r in c["A"] + c["B"] for d in r["decls"] if d.get("private")))
             ctx.count("xor_strings=%d" % sum(1 for r in c["A"] + c["B"] for d in r["decls"] if d["xor"] is not None))
             ctx.count("first=%s" % c["order"][0][0])
-            ctx.count("family=%s" % ("modules" if c.get("asset") else "strings"))
+            ctx.count("family=%s" % ("fragmented-entrypoint" if c.get("frag") else "modules" if c.get("asset") else "strings"))
             ctx.count("globals_in_A=%d" % sum(1 for r in c["A"] if r.get("global")))
             ctx.count("include_not_matched=%s" % bool(c.get("include_not_matched", True)))
         return [{"union": u, "A": a, "B": b} for u, a, b in zip(ou, oa, ob)]
@@ -252,9 +269,14 @@ class C12(Prop):
         ru = {key(r): r for r in u["rules"]}
         # union vs alone: the whole reported rule (verdict, string names, xor flags, match lists)
         same = True
-        for alone in (a, b):
+        verdict_only = bool(case.get("frag"))    # without compute_full_matches the match lists may legitimately be
+        for alone in (a, b):                     # partial when a rule is decided before the scan: verdicts only
             for r in alone["rules"]:
-                if ru.get(key(r)) != r:
+                ur0 = ru.get(key(r))
+                if verdict_only:
+                    if ur0 is None or ur0["matched"] != r["matched"]:
+                        same = False
+                elif ur0 != r:
                     same = False
         if len(ru) != len(a["rules"]) + len(b["rules"]):
             same = False
@@ -276,7 +298,7 @@ class C12(Prop):
                 same = False            # every non-private rule is reported with include_not_matched
             # with matched-only reporting, which rules are present is compared union vs alone (above); the Coq side
             # checks the strings of the rules that are there
-            present = ur is not None and not r.get("private")
+            present = ur is not None and not r.get("private") and not case.get("frag")
             rules.append("(%s, %s)" % (gbool(present), sds))
             if not present:
                 continue
